@@ -72,6 +72,21 @@ def handle (st : DState) (op : String) (args impl : List String) : Option (DStat
       | some ticks, some unit => ({ st with axis := .range ticks unit }, cmp "axis_range" ["ok"] impl)
       | _, _ => (st, .malformed "axis_range")
     | _ => (st, .malformed "axis_range")
+  | "axis_alias" => some <|
+    match args with
+    | [ticks] =>
+      match parseListOf parseF64 ticks with
+      | some ticks => ({ st with axis := .range ticks none }, cmp "axis_alias" ["ok"] impl)
+      | none => (st, .malformed "axis_alias")
+    | _ => (st, .malformed "axis_alias")
+  -- the ticks replaced by another route than the handle the conversions go through: from now on the conversions are about the new ticks
+  | "axis_reticks" => some <|
+    match args with
+    | [ticks] =>
+      match parseListOf parseF64 ticks, st.axis with
+      | some ticks, .range _ unit => ({ st with axis := .range ticks unit }, cmp "axis_reticks" ["ok"] impl)
+      | _, _ => (st, .malformed "axis_reticks")
+    | _ => (st, .malformed "axis_reticks")
   | "axis_set" | "axis_df" => some <|
     match args.map parseNat with
     | [some n] => ({ st with axis := .count n }, cmp op ["ok"] impl)
